@@ -178,6 +178,16 @@ class IkeSaController:
                     conn.sendall(json.dumps(result).encode())
                     conn.close()
 
+            except socket.gaierror as ex:
+                logging.error(f'Problem sending message: {ex}')
+            except KeyError as ex:
+                logging.error(f'Could not find socket with the appropriate source address: {str(ex)}')
+            except Exception as ex:
+                # a malformed datagram, an unknown peer, a kernel or a transmission error must not stop the daemon
+                logging.error(f'Error while processing an event. Ignoring it: {type(ex).__name__}: {ex}')
+
+            # the timers are served in every iteration, also when the event of this iteration could not be processed
+            try:
                 # check retransmissions
                 for ikesa in self.ike_sas:
                     request_data = ikesa.check_retransmission_timer()
@@ -208,8 +218,7 @@ class IkeSaController:
             except KeyError as ex:
                 logging.error(f'Could not find socket with the appropriate source address: {str(ex)}')
             except Exception as ex:
-                # a malformed datagram, an unknown peer, a kernel or a transmission error must not stop the daemon
-                logging.error(f'Error while processing an event. Ignoring it: {type(ex).__name__}: {ex}')
+                logging.error(f'Error while checking the timers: {type(ex).__name__}: {ex}')
 
     def close(self):
         xfrm.Xfrm.flush_policies()
